@@ -76,6 +76,9 @@ def _worker(args):
                     errors.append((i, f"replay-fidelity probe: digest {res.digest} != {digest}"))
             except Exception:
                 errors.append((i, "replay-fidelity probe: " + traceback.format_exc()))
+        if not stats.samples and getattr(stats, "last_exec", None) is not None:
+            # guarantee at least one written-out case per batch, whatever the module's own sampling rule picked
+            stats.samples.append({"note": "first execution of this worker", "spec": stats.last_exec[0]})
         stats.last_exec = None
     faulthandler.cancel_dump_traceback_later()
     if hasattr(stats, "last_exec"):
